@@ -123,9 +123,9 @@ CLAIMS.update({
 
 CLAIMS.update({
  'C15': dict(
-   text="Explicit-state breadth-first search (X2) over the real endpoints against a scripted peer, both roles. Server with two accepted streams: graceful_shutdown, abrupt_shutdown(code), respond, push_request, handle drops; the peer opens further streams racing the GOAWAY, acknowledges the shutdown PING early or late, finishes its requests, sends its own GOAWAY (quick: depth 8). Invariants in every state: last-stream-ids of emitted GOAWAYs never increase and are never below a stream already returned by accept(); after GOAWAY(L) peer streams above L are neither surfaced nor answered; push_request fails once the peer's GOAWAY was processed. Epilogue from every new state: graceful shutdown = GOAWAY(2^31-1), PING, after the ACK GOAWAY(last processed), every accepted stream answered, transport shut down, Ok(()). Client with two requests in flight: up to two peer GOAWAYs (last-stream-id 0/1/3/5/2^31-1, codes 0/2/0xdeadbeef, with/without debug data, never increasing), responses, EOF, new requests, poll_ready, response polls. Invariants: no send_request / poll_ready success and no new HEADERS once the GOAWAY was processed; streams above L fail with origin remote / kind GOAWAY / the peer's code and debug data. Epilogue: streams <= L complete when answered, nothing stays pending, the connection result carries the peer's code and debug data.",
+   text="Explicit-state breadth-first search (X2) over the real endpoints against a scripted peer, both roles. Server with two accepted streams: graceful_shutdown, abrupt_shutdown(code), respond, push_request, handle drops; the peer opens further streams racing the GOAWAY, acknowledges the shutdown PING early or late, finishes its requests, sends its own GOAWAY (quick: depth 8). Invariants in every state: last-stream-ids of emitted GOAWAYs never increase and are never below a stream already returned by accept(); after GOAWAY(L) peer streams above L are neither surfaced nor answered; push_request fails once the peer's GOAWAY was processed. Epilogue from every new state: graceful shutdown = GOAWAY(2^31-1), PING, after the ACK GOAWAY(last processed), every accepted stream answered, transport shut down, Ok(()). Client with two requests in flight: up to two peer GOAWAYs (last-stream-id 0/1/3/5/2^31-1, codes 0/2/0xdeadbeef, with/without debug data, never increasing), responses, EOF, new requests, poll_ready, response polls. Invariants: no send_request / poll_ready success and no new HEADERS once the GOAWAY was processed; streams above L fail with origin remote / kind GOAWAY / the peer's code and debug data. Epilogue: streams <= L complete when answered, nothing stays pending, the connection result carries the peer's code and debug data. Second half, deviation-bounded exploration (X1) of real client <-> real server: the server application requests graceful / abrupt shutdown after its n-th accept while further requests race the GOAWAY (three at once, parked, small windows, late readers, requests starting late); every execution with <= 2 (thorough 3) deviations in schedule / partial I/O / spurious Pending; the same rules judged from the wire and both API logs.",
    note="The reaction to a peer that raises its last-stream-id is unspecified and not part of the alphabet. Byte-level chunking of GOAWAY frames is covered by C09/C12, not here.",
-   tech="explicit-state BFS over the real implementation with canonical state hashing, both roles against a scripted peer; epilogue (drain to completion) from every new state",
+   tech="explicit-state BFS over the real implementation with canonical state hashing, both roles against a scripted peer, epilogue from every new state; plus stateless deviation-bounded schedule exploration of client <-> server",
    design="3/C15"),
 })
 
